@@ -5,7 +5,7 @@ from ..model import AnalysisError, norm, walk_no_nested
 from ..cfg import build_cfg, node_exprs
 from ..astutil import short, call_name
 from ..report import fkey
-from ..rules import decode, guards, persist
+from ..rules import decode, guards, persist, match
 from ..rules.common import *
 
 EXPLANATION = (
@@ -72,17 +72,57 @@ def neighbourhood(ctx, rule='A5n'):
     ctx.ob(rule, fkey(iv, rule, 'fixed-dimension-stays'), ok, iv.where,
            'for a fixed dimension no other value than the fixed one is ever yielded', f'{len(ge)} guard edge(s), '
            f'{len(later)} later yield(s)')
-    # range of neighbours stays inside [0, n_opts)
-    txt = ' '.join(norm(s) for s in iv.body)
-    ok = 'pos_dir < n_opts[i_dv]' in txt.replace(p, 'i_dv') and 'neg_dir >= 0' in txt
+    # range of neighbours stays inside [0, n_opts) and the search radius reaches the farthest option
+    from ..rules import intcmp
+    m = match.Matcher(iv, ctx.prog)
+    ok = m.has('if pos < n_opts[i_dv]') and m.has('if neg >= 0')
     ctx.ob(rule, fkey(iv, rule, 'neighbours-in-range'), ok, iv.where,
            'neighbour values are only yielded inside [0, n_opts)', '')
+    loops = [x for x in ast.walk(iv.node) if isinstance(x, ast.For) and isinstance(x.iter, ast.Call) and
+             isinstance(x.iter.func, ast.Name) and x.iter.func.id == 'range']
+    ok = False
+    detail = 'distance loop not found'
+    if loops and len(loops[0].iter.args) == 2:
+        start, stop = loops[0].iter.args
+        cur = [a for a in walk_fn(iv) if isinstance(a, ast.Assign) and norm(a.value) == f'opt_idx[{p}]']
+        cur_name = norm(cur[0].targets[0]) if cur else 'i_current'
+        ok = True
+        try:
+            for n_ in range(1, 7):
+                for i_ in range(n_):
+                    env = {cur_name: i_, f'n_opts[{p}]': n_, f'opt_idx[{p}]': i_}
+                    lo_ = intcmp._const(start, env)
+                    hi_ = _num_expr(stop, env)
+                    far = max(i_, n_ - 1 - i_)
+                    if lo_ > 1 or hi_ - 1 < far:
+                        ok = False
+                        detail = f'with {n_} options and current value {i_} the distance loop range({lo_}, {hi_}) ' \
+                                 f'never reaches distance {far}: option {0 if i_ >= n_ - 1 - i_ else n_ - 1} is ' \
+                                 f'never tried'
+            if ok:
+                detail = f'range({short(start)}, {short(stop)}) reaches the farthest option for all sampled sizes'
+        except intcmp.NotSimple as e:
+            raise AnalysisError(f'A5n: unrecognised distance bound ({e})')
+    ctx.ob(rule, fkey(iv, rule, 'radius-covers-all-options'), ok, iv.where,
+           'the neighbourhood of a dimension reaches every option value: the distance loop runs at least up to the '
+           'farthest option from the requested value', detail)
     # zero dimensions
     cfg2 = build_cfg(fn)
     t = [n for n in cfg2.nodes if n.kind == 'test' and 'len(opt_idx) == 0' in norm(n.ast)]
     ok = bool(t)
     ctx.ob(rule, fkey(fn, rule, 'zero-dimensions'), ok, fn.where,
            'a graph without selection choices yields exactly the empty vector (the decode loop runs once)', '')
+
+
+def _num_expr(e, env):
+    from ..rules import intcmp
+    if isinstance(e, ast.Call) and isinstance(e.func, ast.Name) and e.func.id in ('max', 'min'):
+        vals = [_num_expr(a, env) for a in e.args]
+        return max(vals) if e.func.id == 'max' else min(vals)
+    if isinstance(e, ast.BinOp) and isinstance(e.op, (ast.Add, ast.Sub)):
+        a, b = _num_expr(e.left, env), _num_expr(e.right, env)
+        return a + b if isinstance(e.op, ast.Add) else a - b
+    return intcmp._const(e, env)
 
 
 def forwarding(ctx, rule='A12f'):
